@@ -105,7 +105,9 @@ def write_phase(scn, crash_at=None, log=None, items=None) -> WriteResult:
     if items is None:
         items = scenario_items(scn)
     blocked = scn["blocked"]
-    ops = scn.get("writer_ops") or default_ops(len(items), scn.get("api", "write"))
+    ops = None
+    if scn.get("api") != "func":
+        ops = scn.get("writer_ops") or default_ops(len(items), scn.get("api", "write"))
     knobs = scn.get("knobs", {})
     with sut.knob(knobs.get("MAX_VBS_RECORD_LENGTH")):
         if scn.get("api") == "func":
